@@ -545,7 +545,7 @@ def run_atheris(ctx, spec):
                 fh.write(text)
         out = os.path.join(work, 'violation.json')
         env = dict(os.environ, PYTHONPATH=os.pathsep.join([os.path.dirname(os.path.dirname(impl.bs.module.__file__)), root, os.path.join(root, '.deps')]))
-        cmd = [sys.executable, '-m', 'pbt.fuzz_parser', out, '-runs=%d' % spec['runs'], '-seed=%d' % (ctx.seed * 100 + spec['k'] + 1), '-max_len=600', '-timeout=20',
+        cmd = [sys.executable, '-m', 'pbt.fuzz_parser', out, '-runs=%d' % spec['runs'], '-seed=%d' % (ctx.seed * 100 + spec['k'] + 1), '-max_len=600', '-timeout=20', '-artifact_prefix=' + work + os.sep,
                '-dict=' + os.path.join(root, 'tools', 'bare.dict'), '-print_final_stats=1', corpus]
         try:
             r = subprocess.run(cmd, capture_output=True, text=True, env=env, cwd=root, timeout=3000, preexec_fn=_lift_memory_net)
@@ -566,6 +566,9 @@ def run_atheris(ctx, spec):
         ctx.evaluations += execs
         ctx.classes['atheris-executions'] += execs
         ctx.classes['atheris-corpus-size'] += ncorpus
+        if os.path.exists(out + '.excluded'):
+            with open(out + '.excluded', encoding='utf-8') as fh:
+                ctx.classes['atheris-excluded-backslash-run-over-8(approx)'] += int(fh.read() or 0)
         for name in sorted(os.listdir(corpus))[:400]:
             with open(os.path.join(corpus, name), 'rb') as fh:
                 ctx.nontrivial.add(digest(fh.read()))
